@@ -24,11 +24,13 @@ pub struct CaseOutcome {
     /// the case was not executed / not checked because it hits a listed finding owned by another
     /// check (counted as excluded_by_known_finding)
     pub excluded: Option<String>,
+    /// additive counters (e.g. pairs checked inside one case)
+    pub counters: BTreeMap<String, u64>,
 }
 
 impl CaseOutcome {
     pub fn new(digest: u64) -> CaseOutcome {
-        CaseOutcome { findings: Vec::new(), classes: Vec::new(), nontrivial: false, digest, sample: Value::Null, inconclusive: None, excluded: None }
+        CaseOutcome { findings: Vec::new(), classes: Vec::new(), nontrivial: false, digest, sample: Value::Null, inconclusive: None, excluded: None, counters: BTreeMap::new() }
     }
 }
 
@@ -109,6 +111,7 @@ struct Stats {
     inconclusive: Vec<String>,
     other_property_findings: BTreeMap<String, u64>,
     other_examples: BTreeMap<String, Vec<String>>,
+    counters: BTreeMap<String, u64>,
     failed: bool,
 }
 
@@ -131,6 +134,9 @@ pub fn run_worker(engine: &dyn Engine, prop: &str, seed: u64, widx: u64, cases: 
             st.evaluations += 1;
             for c in &o.classes {
                 *st.classes.entry(c.clone()).or_insert(0) += 1;
+            }
+            for (k, n) in &o.counters {
+                *st.counters.entry(k.clone()).or_insert(0) += n;
             }
             if let Some(r) = &o.excluded {
                 st.excluded += 1;
@@ -203,6 +209,7 @@ pub fn run_worker(engine: &dyn Engine, prop: &str, seed: u64, widx: u64, cases: 
         "inconclusive": st.inconclusive,
         "other_property_findings": st.other_property_findings,
         "other_examples": st.other_examples,
+        "counters": st.counters,
         "failure": failure,
     })
 }
@@ -236,6 +243,7 @@ pub struct Aggregate {
     pub other_property_findings: BTreeMap<String, u64>,
     pub failures: Vec<Value>,
     pub worker_errors: Vec<String>,
+    pub counters: BTreeMap<String, u64>,
 }
 
 pub fn run_parent(spec: &RunSpec, extra_args: &[String]) -> Aggregate {
@@ -270,6 +278,7 @@ pub fn run_parent(spec: &RunSpec, extra_args: &[String]) -> Aggregate {
         other_property_findings: BTreeMap::new(),
         failures: Vec::new(),
         worker_errors: Vec::new(),
+        counters: BTreeMap::new(),
     };
     let deadline = Instant::now() + spec.watchdog;
     // reader threads so that a chatty child cannot block on a full pipe
@@ -344,6 +353,11 @@ pub fn run_parent(spec: &RunSpec, extra_args: &[String]) -> Aggregate {
             for (k, x) in m {
                 let e = agg.known_hits.entry(k.clone()).or_insert((0, x["example"].as_str().unwrap_or("").to_string()));
                 e.0 += x["count"].as_u64().unwrap_or(0);
+            }
+        }
+        if let Some(m) = v["counters"].as_object() {
+            for (k, n) in m {
+                *agg.counters.entry(k.clone()).or_insert(0) += n.as_u64().unwrap_or(0);
             }
         }
         agg.excluded += v["excluded"].as_u64().unwrap_or(0);
@@ -449,6 +463,7 @@ pub fn finish(spec: &RunSpec, agg: &Aggregate, regress: &RegressReport, started:
         "rule": spec.level_rule,
         "samples": samples,
         "classes": agg.classes,
+        "counters": agg.counters,
         "excluded_by_known_finding": agg.excluded,
         "excluded_reasons": agg.excluded_reasons,
         "known_finding_hits": agg.known_hits.iter().map(|(k, v)| (k.clone(), json!(v.0))).collect::<BTreeMap<_, _>>(),
